@@ -507,13 +507,19 @@ impl ChainStorage for ZarrAsyncChainStorage {
             .collect::<std::collections::HashSet<_>>()
             .into_iter()
             .map(|dim| {
-                let w = self
-                    .warmup_event_counts
-                    .get(dim.as_str())
-                    .copied()
-                    .unwrap_or(0);
-                let s = sample_counts.get(dim.as_str()).copied().unwrap_or(0);
-                (dim.clone(), (w, s))
+                let current = sample_counts.get(dim.as_str()).copied().unwrap_or(0);
+                if self.last_sample_was_warmup {
+                    // The chain never left warmup (aborted run or no posterior draws):
+                    // everything counted so far belongs to the warmup arrays.
+                    (dim.clone(), (current, 0))
+                } else {
+                    let w = self
+                        .warmup_event_counts
+                        .get(dim.as_str())
+                        .copied()
+                        .unwrap_or(0);
+                    (dim.clone(), (w, current))
+                }
             })
             .collect();
         Ok(counts)
@@ -524,6 +530,10 @@ impl ChainStorage for ZarrAsyncChainStorage {
         let mut counts = HashMap::new();
         for dim in self.event_dim_of_stat.values() {
             let s = current.get(dim.as_str()).copied().unwrap_or(0);
+            if self.last_sample_was_warmup {
+                counts.insert(dim.clone(), (s, 0));
+                continue;
+            }
             let w = self
                 .warmup_event_counts
                 .get(dim.as_str())
